@@ -297,6 +297,13 @@ func (fc *funcContext) translateExpr(expr ast.Expr) *expression {
 				return fc.formatExpr("new %1s(-%2r, -%2i)", fc.typeName(t), e.X)
 			case isUnsigned(basic):
 				return fc.fixNumber(fc.formatExpr("-%e", e.X), basic)
+			case isInteger(basic):
+				// Negating the minimal value of a signed type wraps around, and
+				// negating zero must not produce a JavaScript -0.
+				return fc.fixNumber(fc.formatExpr("-%e", e.X), basic)
+			case isFloat(basic):
+				// Parenthesized so that a nested negation is never emitted as "--x".
+				return fc.formatParenExpr("-%e", e.X)
 			default:
 				return fc.formatExpr("-%e", e.X)
 			}
